@@ -13,11 +13,14 @@ def models(quick):
     if quick:
         return [ModelRun("C04_acd", letters=[0, 1, 2], maxlen=3, maxn=2, ks=[1, 2], engines=["hash", "kd"],
                          comps=[1, 2, 3, 20], invariants=INVS),
+                # the default search on the same inputs: the three engines must be interchangeable
+                ModelRun("C04_default", letters=[0, 1, 2], maxlen=3, maxn=2, ks=[1, 2], engines=["symdel"], invariants=INVS),
                 ModelRun("C04_hiy_n3", letters=[6, 7, 19], maxlen=2, maxn=3, ks=[1, 3], engines=["kd"],
                          comps=[1, 7, 25], invariants=INVS)]
     # (hash_based enumerates the 20-letter edit ball on the real code: radius 3 costs seconds per query, so k <= 2 there)
     return [ModelRun("C04_acd", letters=[0, 1, 2], maxlen=3, maxn=2, ks=[1, 2, 3], engines=["kd"], comps=COMPS, invariants=INVS),
             ModelRun("C04_acd_hash", letters=[0, 1, 2], maxlen=3, maxn=2, ks=[1, 2], engines=["hash"], invariants=INVS),
+            ModelRun("C04_default", letters=[0, 1, 2], maxlen=3, maxn=2, ks=[1, 2, 3], engines=["symdel"], invariants=INVS),
             ModelRun("C04_hash_k3", letters=[0, 1], maxlen=2, maxn=2, ks=[3], engines=["hash"], invariants=INVS),
             ModelRun("C04_hiy", letters=[6, 7, 19], maxlen=3, maxn=2, ks=[1, 2, 3, 4], engines=["kd"],
                      comps=COMPS, invariants=INVS),
